@@ -68,11 +68,12 @@ VARIABLES
     lastRec,    \* result of the last completed recovery: [n, lo, ok]
     rdr,        \* a concurrent reader in the middle of a lookup: [pc, loc, seen, got]
     cur,        \* an open btree iterator: [open, c, t, k] (position Start | End | At(k) | Seeked(k))
-    trace       \* history of steps (only when Gen)
+    trace,      \* history of steps (only when Gen)
+    cov         \* coverage tags hit by this behaviour (directed generation; follows `trace`)
 
 vars == <<hist, logical, calls, queue, nextCid, covl, lw, nextRid, logs, pool, nextLogId, rpos, lovl, cw,
           lastEnacted, tabs, dtabs, flushedCq, applied, durable, mode, rcv, ncrash, naux,
-          lastRec, rdr, cur, trace>>
+          lastRec, rdr, cur, trace, cov>>
 
 ----------------------------------------------------------------------------
 (* Data *)
@@ -200,11 +201,21 @@ WithBounds == Feat \cap {"crash", "power", "iofail", "corrupt"} # {}
 \* of a reference-counted hash column must then report exactly these counts), else <<>>.
 Drained == queue = <<>> /\ lw.pc = "idle" /\ cw.pc = "idle" /\ mode = "open"
            /\ \A i \in 1..Len(logs) : logs[i].st = "cq"
-Log(e) == trace' = IF ~Gen THEN trace
-                   ELSE LET e2 == e @@ [cnt |-> IF Drained' THEN EntState(logical') ELSE <<>>] IN
-                        IF WithBounds THEN Append(trace, e2 @@ [lo |-> durable, alts |-> Alts(hist')])
-                        ELSE Append(trace, e2)
-NoLog  == UNCHANGED trace
+\* coverage tags: situations the conformance runs should reach (used to direct generation)
+CqInversion == \E i, j \in 1..Len(logs) : i < j /\ logs[i].st = "cq" /\ logs[j].st = "cq" /\ logs[i].id > logs[j].id
+CovOf(e) ==
+    (IF e.a = "Crash" /\ IdInversion THEN {"crash_recycled"} ELSE {}) \cup
+    (IF e.a = "Crash" /\ Len(logs) >= 3 THEN {"crash_3files"} ELSE {}) \cup
+    (IF e.a = "IoFailOther" /\ CqInversion THEN {"iofail_cq_recycled"} ELSE {}) \cup
+    (IF e.a = "IoFailOther" /\ NumCq >= 2 THEN {"iofail_2cq"} ELSE {}) \cup
+    (IF e.a = "CloseOpen" /\ Len(logs) >= 4 THEN {"close_4files"} ELSE {}) \cup
+    (IF e.a = "CloseOpen" /\ IdInversion THEN {"close_recycled"} ELSE {})
+Log(e) == /\ trace' = IF ~Gen THEN trace
+                     ELSE LET e2 == e @@ [cnt |-> IF Drained' THEN EntState(logical') ELSE <<>>] IN
+                          IF WithBounds THEN Append(trace, e2 @@ [lo |-> durable, alts |-> Alts(hist')])
+                          ELSE Append(trace, e2)
+          /\ cov' = IF Gen THEN cov \cup CovOf(e) ELSE cov
+NoLog  == UNCHANGED <<trace, cov>>
 
 ----------------------------------------------------------------------------
 Init ==
@@ -219,7 +230,7 @@ Init ==
     /\ lastRec = [n |-> 0, lo |-> 0, ok |-> TRUE, pre |-> 0]
     /\ rdr = [pc |-> "idle"]
     /\ cur = NoCur
-    /\ trace = <<>>
+    /\ trace = <<>> /\ cov = {}
 
 ----------------------------------------------------------------------------
 (* A concurrent reader (db.rs DbInner::get).  The commit-overlay read lock is held for the
@@ -230,7 +241,7 @@ CovlReadLocked == rdr.pc \in {"lovl", "tabs"}
 
 OthersUnchanged == UNCHANGED <<hist, logical, calls, queue, nextCid, covl, lw, nextRid, logs, pool, nextLogId, rpos, lovl,
                                cw, lastEnacted, tabs, dtabs, flushedCq, applied, durable, mode, rcv, ncrash,
-                               naux, lastRec, cur, trace>>
+                               naux, lastRec, cur, trace, cov>>
 
 RStart(l) ==
     /\ "reader" \in Feat /\ mode = "open" /\ rdr.pc = "idle"
@@ -750,7 +761,7 @@ IoFailOther ==
     /\ mode' = "err"
     /\ UNCHANGED <<hist, logical, calls, queue, nextCid, covl, lw, nextRid, logs, pool, nextLogId, rpos, lovl, cw,
                    lastEnacted, tabs, dtabs, flushedCq, applied, durable, rcv, ncrash, naux, lastRec, rdr, cur>>
-    /\ Log([a |-> "IoFailOther", obs |-> Obs'])
+    /\ Log([a |-> "IoFailOther", ncq |-> NumCq, inv |-> IdInversion, obs |-> Obs'])
 
 \* drop in the error state (kill_logs): fully enacted logs are truncated, nothing else is
 \* touched; the next open replays what is left.
